@@ -142,6 +142,12 @@ def cases(tier, seed):
         for pi in range(len(MAT_POINTS)):
             for mform in ("ag", "nabla"):
                 out.append({"form": "matrix", "fn": fi, "pt": pi, "mform": mform})
+    # Jacobians of vector-valued functions that select, permute or pass through their argument (the result may be a view of
+    # the point): the exact Jacobian is a 0/1 selection matrix, or a scaled one
+    for si in range(len(SEL_FNS)):
+        for pt in SEL_POINTS:
+            for how in ("literal", "symbol"):
+                out.append({"form": "selection", "fn": si, "pt": pt, "how": how})
     n += len(out)
     tries = 0
     while len(out) < n and tries < n * 30:
@@ -192,6 +198,59 @@ def init_shard(tier, seed):
 MAT_FNS = [("{+/,/x*x}", lambda m: 2 * m), ("{+/,/x^3}", lambda m: 3 * m * m), ("{+/,/x}", lambda m: m * 0 + 1.0), ("{+/,/(x*x)+2.0*x}", lambda m: 2 * m + 2.0)]
 MAT_POINTS = ["[[0.5 1.5] [2.0 0.7]]", "[[0.5 1.5 1.2] [2.0 0.7 1.5]]", "+[[0.5 1.5 1.2] [2.0 0.7 1.5]]", "|[[0.5 1.5] [2.0 0.7] [1.2 1.2]]",
               "+[[0.5 1.5] [2.0 0.7]]", "[[0.5 1.5] [2.0 0.7] [1.2 1.2]]@[2 0]", "+|[[0.5 1.5 1.2] [2.0 0.7 1.5]]", "[[1 2] [3 4]]", "+[[1 2 3] [4 5 6]]"]
+
+
+SEL_FNS = [("{x}", lambda n: [[1.0 if i == j else 0.0 for j in range(n)] for i in range(n)]),
+           ("{|x}", lambda n: [[1.0 if j == n - 1 - i else 0.0 for j in range(n)] for i in range(n)]),
+           ("{2#x}", lambda n: [[1.0 if j == i % n else 0.0 for j in range(n)] for i in range(2)]),
+           ("{1_x}", lambda n: [[1.0 if j == i + 1 else 0.0 for j in range(n)] for i in range(n - 1)]),
+           ("{x@[1 0]}", lambda n: [[1.0 if j == (1, 0)[i] else 0.0 for j in range(n)] for i in range(2)]),
+           ("{(-1)#x}", lambda n: [[1.0 if j == n - 1 else 0.0 for j in range(n)]]),
+           ("{1:+x}", lambda n: [[1.0 if j == (i - 1) % n else 0.0 for j in range(n)] for i in range(n)]),
+           ("{x,x}", lambda n: [[1.0 if j == i % n else 0.0 for j in range(n)] for i in range(2 * n)]),
+           ("{2.0*x}", lambda n: [[2.0 if i == j else 0.0 for j in range(n)] for i in range(n)]),
+           ("{x+0}", lambda n: [[1.0 if i == j else 0.0 for j in range(n)] for i in range(n)])]
+SEL_POINTS = ["[0.5 1.5]", "[2.0 0.7 1.2]", "[1.5 0.25 3.0 0.75]"]
+
+
+def _run_selection(case, res):
+    import numpy as np
+    cnt = res["counters"]
+    ftext, jac = SEL_FNS[case["fn"]]
+    ptext = case["pt"]
+    n = len(ptext.split())
+    if n < 2 and ftext == "{1_x}":
+        return
+    exp = np.array(jac(n), dtype=float)
+    expr = ("%s∂g" % ptext) if case["how"] == "literal" else "p∂g"
+    show = {"program": "g::%s; p::%s; %s" % (ftext, ptext, expr)}
+    res["show"] = show
+    res["key"] = show["program"]
+    for backend in (None, "torch"):
+        name = backend or "numpy"
+        k = kl.new(backend)
+        kl.ev(k, "g::" + ftext)
+        kl.ev(k, "p::" + ptext)
+        r = kl.ev(k, expr)
+        if r[0] != "ok":
+            res["violations"].append({"sig": "selection-jacobian|%s|%s|raises:%s" % (ftext, name, r[1]), "what": "%s on %s raised %s %s" % (show["program"], name, r[1], r[2][:80]), "detail": show})
+            continue
+        try:
+            got = np.array(_tolists(canon(r[1])), dtype=float)
+        except Exception:
+            res["violations"].append({"sig": "selection-jacobian|%s|%s|non-numeric" % (ftext, name), "what": "%s on %s returned %s" % (show["program"], name, brief(canon(r[1]))), "detail": show})
+            continue
+        if got.ndim == 1 and exp.shape[0] == 1:
+            got = got.reshape(1, -1)
+        res["nontrivial"] = True
+        cnt["gradients_compared_" + name] = cnt.get("gradients_compared_" + name, 0) + 1
+        cnt["selection_jacobians"] = cnt.get("selection_jacobians", 0) + 1
+        if got.shape != exp.shape or not np.all(np.abs(got - exp) <= 2e-3):
+            res["violations"].append({"sig": "selection-jacobian|%s|%s|%s" % (ftext, name, "shape" if got.shape != exp.shape else "value"),
+                                      "what": "%s on %s returned %s, the exact Jacobian is %s" % (show["program"], name, got.tolist(), exp.tolist()), "detail": show})
+        p_after = kl.ev(k, "p")
+        if p_after[0] == "ok" and any(abs(a - b) > 1e-5 for a, b in zip(_flat(canon(p_after[1])), [float(x) for x in ptext.strip("[]").split()])):
+            res["violations"].append({"sig": "selection-jacobian|%s|%s|point-changed" % (ftext, name), "what": "%s on %s left p = %s" % (show["program"], name, brief(canon(p_after[1]))), "detail": show})
 
 
 def _run_matrix(case, res):
@@ -322,6 +381,9 @@ def run_case(ctx, case):
     cnt = res["counters"]
     if case.get("form") == "matrix":
         _run_matrix(case, res)
+        return res
+    if case.get("form") == "selection":
+        _run_selection(case, res)
         return res
     pre, expr = _program(case)
     exp = _expected(case)
